@@ -1512,6 +1512,8 @@ struct TransitionBase {
 	#pragma warning(pop)
 #endif
 
+#pragma pack(pop)
+
 template <typename TPayload>
 struct TransitionT final
 	: TransitionBase
@@ -1588,8 +1590,6 @@ struct TransitionT<void> final
 {
 	using TransitionBase::TransitionBase;
 };
-
-#pragma pack(pop)
 
 }
 
@@ -1708,6 +1708,8 @@ struct TaskBase {
 	};
 };
 
+#pragma pack(pop)
+
 FFSM2_CONSTEXPR(11)
 bool
 operator == (const TaskBase& lhs,
@@ -1766,8 +1768,6 @@ struct TaskT<void> final
 {
 	using TaskBase::TaskBase;
 };
-
-#pragma pack(pop)
 
 }
 }
@@ -2036,8 +2036,6 @@ struct Registry final {
 namespace ffsm2 {
 namespace detail {
 
-#pragma pack(push, 1)
-
 struct TaskStatus final {
 	enum Result {
 		NONE,
@@ -2053,8 +2051,6 @@ struct TaskStatus final {
 
 	FFSM2_CONSTEXPR(14)	void clear()									noexcept;
 };
-
-#pragma pack(pop)
 
 FFSM2_CONSTEXPR(14) TaskStatus  operator |  (TaskStatus& l, const TaskStatus r)	noexcept;
 FFSM2_CONSTEXPR(14) TaskStatus& operator |= (TaskStatus& l, const TaskStatus r)	noexcept;
